@@ -34,6 +34,7 @@ def run_ops(case):
     m = MemoryTimeline()
     series_ids = {}
     out = []
+    pat_objs = []
 
     def mk(s, e, tag, series):
         rid = None
@@ -55,11 +56,19 @@ def run_ops(case):
                 res = m.add(mk(op[1], op[2], op[3], op[4] if len(op) > 4 else 0))
                 out.append([[r.success for r in res], []])
             elif op[0] == "addpat":
-                _, k, phase, dur, tag, anchored = op
+                _, k, phase, dur, tag, anchored = op[:6]
                 start = phase if anchored else phase % DAY
-                # the pattern object is a temporary, as in m.add(recurring(...))
-                res = m.add(RecurringPattern("daily", interval=k, start=start, duration=dur, tz="UTC",
-                                             interval_class=MEv, tag=tag))
+                again = len(op) > 6 and op[6] is not None and op[6] < len(pat_objs)
+                if again:
+                    # the SAME pattern object is stored a second time: an independent series
+                    pobj = pat_objs[op[6]]
+                else:
+                    # (usually the pattern object is a temporary, as in m.add(recurring(...)); its
+                    # exdates argument is a mutable set the caller keeps)
+                    pobj = RecurringPattern("daily", interval=k, start=start, duration=dur, tz="UTC",
+                                            interval_class=MEv, tag=tag, exdates=set())
+                    pat_objs.append(pobj)
+                res = m.add(pobj)
                 gc.collect()
                 series_ids[len(series_ids) + 1] = m._recurring_patterns[-1][0]
                 out.append([[r.success for r in res], []])
@@ -103,7 +112,7 @@ def coq_op(op):
     if op[0] == "add":
         return f"(MAdd {coq_ev(op[1], op[2], op[3], op[4] if len(op) > 4 else 0)})"
     if op[0] == "addpat":
-        _, k, phase, dur, tag, anchored = op
+        _, k, phase, dur, tag, anchored = op[:6]
         return f"(MAddPat {cz(k * DAY)} {cz(phase)} {cz(dur)} {tag}%N)"
     if op[0] == "remove":
         return f"(MRemove {coq_ev(op[1], op[2], op[3], op[4])})"
@@ -147,7 +156,7 @@ class MemFamily(Family):
                     ser = rng.choice(list(range(1, npat + 1)) + [99]) if rng.random() < 0.2 else 0
                     if ser and ser != 99 and rng.random() < 0.5:
                         # exactly an occurrence of that series
-                        _, k, phase, dur, ptag, _ = [o for o in ops if o[0] == "addpat"][ser - 1]
+                        _, k, phase, dur, ptag, _ = [o for o in ops if o[0] == "addpat"][ser - 1][:6]
                         s = (phase if phase > DAY else BASE + phase) + rng.choice([0, 1, 2]) * k * DAY
                         e, tag = s + dur, ptag
                     ops.append(["add", s, e, tag, ser])
@@ -158,7 +167,12 @@ class MemFamily(Family):
                     tod = rng.choice([0, 9 * H, 23 * H, 12 * H + 1800])
                     phase = (BASE + rng.choice([0, 1, 2]) * DAY + tod) if anchored else tod
                     dur = rng.choice([H, 2 * H, DAY, DAY + 6 * H, 60 * H])
-                    ops.append(["addpat", k, phase, dur, rng.choice([4, 5, 6]), anchored])
+                    prev = [o for o in ops if o[0] == "addpat" and len(o) == 6]
+                    if prev and rng.random() < 0.25:
+                        src = rng.randrange(len(prev))
+                        ops.append(prev[src][:6] + [src])          # the same pattern object once more
+                    else:
+                        ops.append(["addpat", k, phase, dur, rng.choice([4, 5, 6]), anchored])
                     npat += 1
                 elif r < 0.6:
                     kind = rng.choice(["remove", "remove", "rseries"])
@@ -171,12 +185,17 @@ class MemFamily(Family):
                     elif q < 0.9 and npat:
                         ser = rng.choice(list(range(1, npat + 1)) + [99] * 1)
                         pat = [o for o in ops if o[0] == "addpat"][min(ser, npat) - 1]
-                        _, k, phase, dur, tag, _ = pat
+                        _, k, phase, dur, tag, _ = pat[:6]
                         nn = rng.choice([0, 1, 2, 3, 4])
                         s = (phase if phase > DAY else BASE + phase) + nn * k * DAY
                         if rng.random() < 0.15:
                             s += rng.choice([1, 3600, DAY])   # not the start of an occurrence (when k > 1 or offset)
+                        win = [BASE - DAY, BASE + 6 * DAY]
+                        if rng.random() < 0.4:
+                            ops.append(["slice", win[0], win[1], True])      # ... the same window in reverse
                         ops.append([kind, s, s + dur, tag, ser])
+                        if rng.random() < 0.5:
+                            ops.append(["slice", win[0], win[1], True])      # before and after the removal
                     else:
                         s, e = rng.choice(uni)
                         ops.append([kind, s, e, 9, 0])
@@ -223,6 +242,8 @@ class MemFamily(Family):
     def shrink_candidates(self, case):
         ops = case["ops"]
         for i in range(len(ops)):
+            if ops[i][0] == "addpat" and any(o[0] == "addpat" and len(o) > 6 for o in ops):
+                continue      # a later op refers to pattern objects by position
             if ops[i][0] == "addpat" and any((o[0] in ("remove", "rseries", "add") and len(o) > 4 and o[4])
                                              or (o[0] in ("removemany", "addmany") and any(it[3] for it in o[1]))
                                              for o in ops[i + 1:]):
